@@ -14,7 +14,7 @@ import glob, os, importlib.util
 
 STREAMS, PROPS = {}, {}
 # commits in /repo that add verif-tagged hook files (MANIFEST.hooks.source_commits)
-HOOK_COMMITS = []
+HOOK_COMMITS = ["39810c1"]
 
 for _f in sorted(glob.glob(os.path.join(os.path.dirname(os.path.abspath(__file__)), "registry.d", "*.py"))):
     _spec = importlib.util.spec_from_file_location("registry_" + os.path.basename(_f)[:-3], _f)
